@@ -613,7 +613,7 @@ func main() {
 	ctx.Assume("which messages 'arrive' is decided by the reference receiver (DESIGN.md appendix A) fed with the bytes sent; whether non-channel messages are stored (as valid events) or dropped is not judged, only that the file stays valid")
 	ctx.Assume("timing tolerance: one tick per stored delta up to the message (each delta is rounded separately)")
 	ctx.Jobs("record", len(alphabet), func(j int) { space(j) })
-	ctx.Jobs("two-ports", 1, func(int) { twoRecordings(); recordTo(); reusingDriver() })
+	ctx.Jobs("two-ports", 1, func(int) { twoRecordings(); recordTo(); reusingDriver(); queuedDriver() })
 	ctx.Set("message_alphabet", len(alphabet))
 	ctx.Set("tempi", tempi)
 	ctx.Set("gaps_ms", gaps)
@@ -638,6 +638,10 @@ func replay() {
 	}
 	if m["kind"] == "reusing-driver" {
 		reusingDriver()
+		ctx.Finish("replay")
+	}
+	if m["kind"] == "queued-driver" {
+		queuedDriver()
 		ctx.Finish("replay")
 	}
 	if m["kind"] == "record-to" {
